@@ -7,7 +7,7 @@
  * and on success the activation subsystem was (re)loaded with this parser's service directories. */
 #include <config.h>
 #include "dbus/dbus-internals.h"
-struct verif_reload_ghost { int reload_calls; int unrefs; int limits_calls; int steals; int activation_calls; int n_servers; _Bool reload_saw_new_policy; _Bool activation_dirs_ok; };
+struct verif_reload_ghost { int reload_calls; int unrefs; int limits_calls; int steals; int activation_calls; int activation_news; int activation_unrefs; int n_servers; _Bool reload_saw_new_policy; _Bool activation_dirs_ok; };
 extern struct verif_reload_ghost G_rl;
 extern int verif_rl_steps; extern _Bool verif_rl_err; extern DBusList verif_rl_link;
 #include VERIF_TU
@@ -38,7 +38,8 @@ const char *verif_stub_get_servicehelper (BusConfigParser *p) { static const cha
 dbus_bool_t verif_stub_activation_reload (BusActivation *a, const DBusString *addr, DBusList **dirs, DBusError *error)
 { G_rl.activation_calls++; G_rl.activation_dirs_ok = (dirs == the_dirs); if (nondet_bool ()) return 1; verif_rl_err = 1; return 0; }
 BusActivation *verif_stub_activation_new (BusContext *c, const DBusString *addr, DBusList **dirs, DBusError *error)
-{ static char act; G_rl.activation_calls++; G_rl.activation_dirs_ok = (dirs == the_dirs); if (nondet_bool ()) return (BusActivation *) &act; verif_rl_err = 1; return NULL; }
+{ static char act; G_rl.activation_calls++; G_rl.activation_news++; G_rl.activation_dirs_ok = (dirs == the_dirs); if (nondet_bool ()) return (BusActivation *) &act; verif_rl_err = 1; return NULL; }
+void bus_activation_unref (BusActivation *a) { G_rl.activation_unrefs++; }
 dbus_bool_t dbus_error_is_set (const DBusError *e) { return verif_rl_err; }
 void dbus_set_error_const (DBusError *e, const char *name, const char *message) { verif_rl_err = 1; }
 void verif_stub_dbus_set_error (DBusError *e, const char *name, const char *format, ...) { verif_rl_err = 1; }
@@ -55,7 +56,8 @@ void harness (void)
     else { n1.next = &n2; n1.prev = &n2; n2.next = &n1; n2.prev = &n1; ctx.servers = &n1; } }
   ctx.address = NULL; ctx.servicehelper = NULL;
   err.name = NULL; err.message = NULL;
-  G_rl.reload_calls = 0; G_rl.unrefs = 0; G_rl.limits_calls = 0; G_rl.steals = 0; G_rl.activation_calls = 0; verif_rl_steps = 0; verif_rl_err = 0; G_rl.reload_saw_new_policy = 0; G_rl.activation_dirs_ok = 0;
+  G_rl.reload_calls = 0; G_rl.unrefs = 0; G_rl.limits_calls = 0; G_rl.steals = 0; G_rl.activation_calls = 0; G_rl.activation_news = 0; G_rl.activation_unrefs = 0; verif_rl_steps = 0; verif_rl_err = 0; G_rl.reload_saw_new_policy = 0; G_rl.activation_dirs_ok = 0;
+  BusActivation *old_activation = ctx.activation;
   r = process_config_every_time (&ctx, the_parser, is_reload, &err);
   __CPROVER_assert (!(G_rl.steals >= 1) || ctx.policy == new_policy, "reload.post1 the context holds the policy parsed from this configuration");
   __CPROVER_assert (G_rl.reload_calls <= 1 && (G_rl.reload_calls == 0 || G_rl.reload_saw_new_policy), "reload.post2 existing connections are re-evaluated against the NEW policy (it is installed before bus_connections_reload_policy)");
@@ -63,6 +65,7 @@ void harness (void)
   __CPROVER_assert (G_rl.unrefs == ((old_policy != NULL && G_rl.steals >= 1) ? 1 : 0), "reload.post4 the previous policy is released exactly once");
   __CPROVER_assert (!r || (G_rl.limits_calls == 1 && G_rl.steals == 1), "reload.post5 limits and policy taken from this parser exactly once");
   __CPROVER_assert (!r || (G_rl.activation_calls == 1 && G_rl.activation_dirs_ok && ctx.activation != NULL), "reload.post6 activation (re)loaded with this parser's service directories");
+  __CPROVER_assert (old_activation == NULL || (ctx.activation == old_activation && G_rl.activation_news == 0 && G_rl.activation_unrefs == 0), "reload.post8 an existing activation object (it owns the pending activations: held messages, start timeouts, babysitters) survives a reload: reloaded in place, never replaced or released");
   __CPROVER_assert (r || verif_rl_err, "reload.post7 failure sets the error");
   if (r && is_reload) __CPROVER_assert (0, "REACH:reloaded");
   if (r && !is_reload) __CPROVER_assert (0, "REACH:first-load");
